@@ -599,7 +599,8 @@ def kind_sexp(p):
     return {"scalar": "scalar", "dict": "dict", "qual": "qual", "unsupported": "unsupported"}[k]
 
 
-def iface_sexp(cid, iface, calls):
+def iface_forms(iface):
+    """the (hdoc …) (headers …) (methods …) forms of one interface"""
     hdoc = ""
     if iface.get("headers"):
         hdoc = "shoot: headers=" + ",".join("{%s:%s}" % (k, v) for k, v in iface["headers"]) + "\n"
@@ -610,9 +611,12 @@ def iface_sexp(cid, iface, calls):
             ps.insert(min(m.get("ctxpos", 0), len(ps)), ["p", Q(m["ctx"]), "ctx", "val"])
         ms.append(["m", Q(m["name"]), ["doc", Q(method_doc(m))], ["verb", m["verb"].lower()], ["path", Q(m["path"])],
                    ["alias"] + [[Q(a), Q(b)] for a, b in m["alias"]], ["params"] + ps])
+    return [["hdoc", Q(hdoc)], ["headers"] + [[Q(k), Q(v)] for k, v in (iface.get("headers") or [])], ["methods"] + ms]
+
+
+def iface_sexp(cid, iface, calls):
     cs = [["c", Q(c["method"])] + c["sexp"] for c in calls]
-    return dump(["case", cid, "rest-iface", ["hdoc", Q(hdoc)], ["headers"] + [[Q(k), Q(v)] for k, v in (iface.get("headers") or [])],
-                 ["methods"] + ms, ["calls"] + cs])
+    return dump(["case", cid, "rest-iface"] + iface_forms(iface) + [["calls"] + cs])
 
 
 def c06_oracle(pkg, iface, calls, modpath):
@@ -638,3 +642,122 @@ def c06_oracle(pkg, iface, calls, modpath):
             lines.append('\temit("c%d.argjson", vrest.Quote(verifJSON(%s)))' % (i, c["json"]))
     lines.append("}")
     return "\n".join(lines) + "\n"
+
+
+# ================================================================================================
+# C01 leg: does every `shoot rest` run on the grammar exit 0 and write Go that compiles
+# ================================================================================================
+
+C01_MODES = ["type", "list", "file", "star"]
+
+
+def c01_shape(rng, g, shape, names, ctx):
+    """interfaces for one package; shape: wf | mixedctx | bodynostruct | ptrdict | twostructs | unsupported"""
+    ifaces = []
+    for j, name in enumerate(names):
+        i = g.iface(name=name, ctx=ctx if j == 0 else (rng.random() < 0.6))
+        ifaces.append(i)
+    i = ifaces[-1] if shape != "wf" and len(ifaces) > 1 and rng.random() < 0.5 else ifaces[0]
+    m = i["methods"][0]
+    used = set(p["name"] for p in m["params"]) | {"ctx"}
+    if shape == "mixedctx":
+        if len(i["methods"]) < 2:
+            i["methods"].append(g.method("Extra9", True))
+            i["structs"] += i["methods"][-1].pop("structs")
+        i["methods"][0]["ctx"] = "ctx"
+        i["methods"][1]["ctx"] = None
+    elif shape == "bodynostruct":
+        m["verb"], m["verbtext"] = "POST", "Post"
+        m["params"] = [p for p in m["params"] if p["kind"] != "struct"]
+    elif shape == "ptrdict":
+        m["verb"], m["verbtext"] = "GET", "Get"
+        m["params"] = [p for p in m["params"] if p["kind"] != "dict"]
+        m["params"].append({"name": "pm", "kind": "dict", "type": "map[string]string", "ptr": True, "role": "dict"})
+    elif shape == "twostructs":
+        m["params"] = [p for p in m["params"] if p["kind"] != "struct"]
+        for pn in ("first", "second"):
+            st = g.struct("same")
+            i["structs"].append(st)
+            m["params"].append({"name": pn, "kind": "struct", "type": st["name"], "ptr": False, "struct": st, "role": "struct"})
+    elif shape == "unsupported":
+        m["params"].append({"name": "list", "kind": "unsupported", "type": "[]string", "ptr": False})
+    return ifaces, i
+
+
+def c01_case(ctx, g, cid, shape, mode, two, ctxflag):
+    rng = ctx.rng
+    names = ["Client", "Admin"] if two else [rng.choice(["Client", "UserAPI", "C", "Svc", "HTTPApi"])]
+    ifaces, bad = c01_shape(rng, g, shape, names, ctxflag)
+    modpath = "verifcases/c_" + cid
+    files = render_package("cs", ifaces, modpath=modpath)
+    if mode == "type":
+        # the (only / deliberately shaped) interface
+        sel_ifaces = [bad] if shape != "wf" else ifaces[:1]
+        args = ["rest", "-type=" + sel_ifaces[0]["name"]]
+    elif mode == "list":
+        sel_ifaces = ifaces
+        args = ["rest", "-type=" + ",".join(i["name"] for i in ifaces)]
+    elif mode == "file":
+        sel_ifaces = ifaces
+        args = ["rest", "-file=rest.go"]
+    else:
+        sel_ifaces = ifaces
+        args = ["rest", "-type=*"]
+        files["rest.go"] = files["rest.go"].replace("package cs\n", "package cs\n\n//go:generate shoot %s\n" % " ".join(args), 1)
+    sexp = dump(["case", cid, "c01rest"] + [["i"] + iface_forms(i) for i in sel_ifaces])
+    feats = set()
+    for i in sel_ifaces:
+        if i.get("headers"):
+            feats.add("iface-headers")
+        for m in i["methods"]:
+            feats.add("verb:" + m["verb"])
+            feats.add("ctx" if m.get("ctx") else "no-ctx")
+            feats.add("result:" + m["result"]["shape"])
+            for p in m["params"]:
+                feats.add("param:" + p["kind"] + ("-ptr" if p.get("ptr") else ""))
+    return {"id": cid, "area": "rest", "files": files, "runs": [{"args": args}], "oracle": {}, "sexp": sexp, "cmd": "shoot " + " ".join(args),
+            "key": sexp, "mode": mode, "shape": shape, "flags": [], "feats": sorted(feats), "nifaces": len(sel_ifaces)}
+
+
+def c01_leg(ctx, res, n):
+    """run n rest cases for C01 and record them in res (core.Result); returns the number of cases"""
+    from props.c01 import observe
+    rng = ctx.rng
+    g = C06Gen(rng)
+    plan = []          # (shape, mode, two interfaces, ctx)
+    # 1. well-formed: every mode x one/two interfaces x ctx/no-ctx
+    for k, mode in enumerate(C01_MODES):
+        for two in (False, True):
+            for cx in (True, False):
+                plan.append(("wf", mode, two, cx))
+    # 2. every region shape in every mode
+    for shape in ("mixedctx", "bodynostruct", "ptrdict"):
+        for k, mode in enumerate(C01_MODES):
+            plan.append((shape, mode, k % 2 == 1, True))
+    for k, shape in enumerate(("twostructs", "unsupported")):
+        plan.append((shape, C01_MODES[k % 4], False, True))
+    plan = plan[:n] if len(plan) > n else plan
+    # 3. random
+    while len(plan) < n:
+        r = rng.random()
+        shape = "wf" if r < 0.85 else rng.choice(["mixedctx", "bodynostruct", "ptrdict", "twostructs", "unsupported"])
+        plan.append((shape, rng.choice(C01_MODES), rng.random() < 0.4, rng.random() < 0.7))
+    cases = [c01_case(ctx, g, "r%d" % i, sh, mode, two, cx) for i, (sh, mode, two, cx) in enumerate(plan)]
+    impl = observe(ctx, cases)
+    model = core.model_run(ctx, [c["sexp"] for c in cases], driver="shootmodel_rest")
+    for c in cases:
+        res.hist("area", c["area"])
+        res.hist("mode", "rest:" + c["mode"])
+        res.hist("rest-shape", c["shape"])
+        res.hist("rest-interfaces", str(c["nifaces"]))
+        for f in c["feats"]:
+            res.hist("rest-feature", f)
+    core.compare_cases(ctx, res, cases, impl, model,
+                       sig=lambda c, region, dk, im, m: region if region.startswith("F_") else region + ":" + ",".join(sorted(dk)),
+                       nontrivial=lambda c, m, im: m["region"] != "Out")
+    for v in res.violations:
+        for c in cases:
+            if c["sexp"] == v["case"]:
+                v.setdefault("detail", c.get("detail"))
+                v.setdefault("sources", c.get("files"))
+    return len(cases)
